@@ -4,6 +4,6 @@ Require Import PV.Lib.Bytes PV.Model.Wire PV.Model.KeyPackets PV.Model.Fingerpri
 Require Extraction.
 Require Import ExtrOcamlBasic.
 Extraction "../ocaml/gen/ex_c18.ml" fingerprint keyid fp_input rfc_fingerprint rfc_pub_body rfc_keyid_value
-  key_body pub_packet_body key_tag publen key_body_parse parse_packets apply_op header_emit
+  key_body pub_packet_body pubkey_pkt key_tag publen key_body_parse parse_packets run_ops header_emit
   issuer_subpacket issuer_fpr_subpacket pkesk_prefix sig_subpackets pkesk_keyid
   oid_field rfc_oid_field all_curves unbe Z.add Z.mul Z.modulo Z.pow.
